@@ -7,11 +7,13 @@
 (***************************************************************************)
 EXTENDS Dictionary, TLC, Json
 
-CONSTANTS NSlots, MaxGen0, MaxMerge, MaxCoded, MaxClear, StrSel, Emit
+CONSTANTS NSlots, MaxGen0, MaxMerge, MaxCoded, MaxClear, MaxReserve, StrSel, Emit
 
-VARIABLES slots, path, ngen0, nmerge, ncoded, nclear
-vars == <<slots, path, ngen0, nmerge, ncoded, nclear>>
-View == <<slots, ngen0, nmerge, ncoded, nclear>>
+VARIABLES slots, path, ngen0, nmerge, ncoded, nclear, ghost
+vars == <<slots, path, ngen0, nmerge, ncoded, nclear, ghost>>
+\* ghost: the reservations taken (they change nothing the model tracks; TLC continues one path per view state,
+\* so they are part of the view and histories go on after them)
+View == <<slots, ngen0, nmerge, ncoded, nclear, ghost>>
 SlotIds == 1..NSlots
 
 \* byte strings chosen around the tag mechanism: tags are assigned from 0 upwards, so strings
@@ -21,7 +23,7 @@ Strs ==
     [] StrSel = "thorough" -> {<<>>, <<0>>, <<1>>, <<97>>, <<97, 98>>, <<0, 97>>, <<1, 1>>, <<98>>, <<98, 0>>, <<255>>, <<97, 98, 99>>}
 
 Init == /\ slots = [s \in SlotIds |-> EmptySlot] /\ path = <<>>
-        /\ ngen0 = 0 /\ nmerge = 0 /\ ncoded = 0 /\ nclear = 0
+        /\ ngen0 = 0 /\ nmerge = 0 /\ ncoded = 0 /\ nclear = 0 /\ ghost = <<>>
 
 Push(s, str) ==
   /\ ~slots[s].poisoned
@@ -30,7 +32,7 @@ Push(s, str) ==
      ELSE ncoded < MaxCoded /\ ncoded' = ncoded + 1 /\ UNCHANGED ngen0
   /\ slots' = [slots EXCEPT ![s] = DPush(@, str)]
   /\ path' = Append(path, [op |-> "push", s |-> s, v |-> str])
-  /\ UNCHANGED <<nmerge, nclear>>
+  /\ UNCHANGED <<nmerge, nclear, ghost>>
 
 Merge(d, srcs, ranked) ==
   /\ nmerge < MaxMerge
@@ -40,7 +42,7 @@ Merge(d, srcs, ranked) ==
          /\ slots' = [slots EXCEPT ![d] = MergedSlot(DictFrom(ss, ranked))]
   /\ path' = Append(path, [op |-> "merge", d |-> d, srcs |-> srcs])
   /\ nmerge' = nmerge + 1
-  /\ UNCHANGED <<ngen0, ncoded, nclear>>
+  /\ UNCHANGED <<ngen0, ncoded, nclear, ghost>>
 
 Clear(s) ==
   /\ nclear < MaxClear
@@ -49,7 +51,18 @@ Clear(s) ==
   /\ slots' = [slots EXCEPT ![s] = EmptySlot]
   /\ path' = Append(path, [op |-> "clear", s |-> s])
   /\ nclear' = nclear + 1
-  /\ UNCHANGED <<ngen0, nmerge, ncoded>>
+  /\ UNCHANGED <<ngen0, nmerge, ncoded, ghost>>
+
+\* reserve_regions(sources): pre-sizing only.  The dictionary, the stored bytes and every issued item stay what
+\* they are (C02 / C10 for dictionary-coded regions) - a stuttering step on everything the model tracks.
+Reserve(s, srcs) ==
+  /\ Len(ghost) < MaxReserve
+  /\ ~slots[s].poisoned
+  /\ DOMAIN slots[s].dict # {}          \* bounded model: the case that matters - a region that codes
+  /\ \A i \in 1..Len(srcs) : ~slots[srcs[i]].poisoned /\ srcs[i] # s /\ slots[srcs[i]].issued # <<>>
+  /\ path' = Append(path, [op |-> "reserve", s |-> s, srcs |-> srcs])
+  /\ ghost' = Append(ghost, <<s, srcs>>)
+  /\ UNCHANGED <<slots, ngen0, nmerge, ncoded, nclear>>
 
 SrcLists == {<<>>} \cup {<<s>> : s \in SlotIds} \cup {[i \in 1..NSlots |-> i]}
 
@@ -64,6 +77,7 @@ Next ==
   \/ \E d \in SlotIds, srcs \in SrcLists :
        \E ranked \in Rankings(MergedCounts([i \in 1..Len(srcs) |-> slots[srcs[i]]])) : Merge(d, srcs, ranked)
   \/ \E s \in SlotIds : Clear(s)
+  \/ \E s \in SlotIds, t \in SlotIds : Reserve(s, <<t>>)
 
 Spec == Init /\ [][Next]_vars
 
